@@ -233,7 +233,18 @@ func AsFieldAddr(v ssa.Value) (FieldRef, bool) {
 	if n, ok := pt.Elem().(*types.Named); ok {
 		name = n.Obj().Name()
 	}
-	return FieldRef{Struct: name, Field: st.Field(fa.Field).Name(), Index: fa.Field, Base: fa.X}, true
+	ref := FieldRef{Struct: name, Field: st.Field(fa.Field).Name(), Index: fa.Field, Base: fa.X}
+	// a field of an embedded struct is a (promoted) field of the struct that embeds it
+	if outer, ok := fa.X.(*ssa.FieldAddr); ok {
+		if opt, ok := outer.X.Type().Underlying().(*types.Pointer); ok {
+			if ost, ok := opt.Elem().Underlying().(*types.Struct); ok && ost.Field(outer.Field).Embedded() {
+				if oref, ok := AsFieldAddr(outer); ok {
+					ref.Struct, ref.Base = oref.Struct, oref.Base
+				}
+			}
+		}
+	}
+	return ref, true
 }
 
 // LoadedField recognises `*(&p.f)`.
